@@ -34,6 +34,7 @@ from rs2v.driver import translate, TranslateError   # noqa: E402
 from rs2v.emit import EmitError                      # noqa: E402
 from rs2v.rparser import parse_file, find_items, ParseError, type_name, parse_macro_args, N   # noqa: E402
 from rs2v.lexer import LexError   # noqa: E402
+from rs2v.imports import all_uses, defined_names, type_items, in_test_module, UseError   # noqa: E402
 
 U8, USZ, BOOL = ("int", "u8"), ("int", "usize"), ("bool",)
 BYTES = ("list", U8)
@@ -54,6 +55,22 @@ THIRD_PARTY = {"roff": "0.2.1", "cansi": "2.2.1"}
 
 LIB = "crates/anstyle-roff/src/lib.rs"
 SST = "crates/anstyle-roff/src/styled_str.rs"
+
+# What the SHORT names of each file stand for in its vocabulary (the vocabularies are keyed by the names the files import).
+# The `use` items are compared with these tables NAME BY NAME (check_uses): how the imports are grouped into `use` lines,
+# their order, an import that is dropped because it is no longer used, or one more name of the table (`roman`) is no
+# change; a name imported from ANOTHER path, a name outside the table, a glob import, or a name of the table that the
+# file now DEFINES itself is a GEN-ERROR.
+USES = {
+    SST: {"AnsiColor": "anstyle::AnsiColor", "AColor": "anstyle::Color", "Effects": "anstyle::Effects", "Style": "anstyle::Style",
+          "CategorisedSlice": "cansi::v3::CategorisedSlice", "Color": "cansi::Color", "Intensity": "cansi::Intensity"},
+    LIB: {"Ansi256Color": "anstyle::Ansi256Color", "AnsiColor": "anstyle::AnsiColor", "Color": "anstyle::Color",
+          "RgbColor": "anstyle::RgbColor", "Style": "anstyle::Style", "Effects": "anstyle::Effects",
+          "Palette": "anstyle_lossy::palette::Palette", "Roff": "roff::Roff", "StyledStr": "styled_str::StyledStr",
+          "bold": "roff::bold", "italic": "roff::italic", "roman": "roff::roman"},
+}
+# the one private type alias lib.rs may hold (the parser skips `type` items): a pair of references to optional colours
+COLORSET = "typeColorSet<'a>=(&'aOption<Color>,&'aOption<Color>);"
 
 
 # ---------------------------------------------------------------------------
@@ -283,7 +300,7 @@ def m_cat_into(em, e, rt, rty, env, k):
 # ---------------------------------------------------------------------------
 # vocabulary
 
-def vocab(area, consts):
+def vocab(area, consts, imported=(), colorset=True):
     nocheck = {"check": False, "fields": {}}
     ansi_enum = {"coq": "N", "eqb": "N.eqb", "native": False, "variants": {n: str(i) for i, n in enumerate(ANSI_NAMES)}}
     acolor = {"coq": "color", "variants": {"Ansi": "Ansi", "Ansi256": "Ansi256", "Rgb": "Rgb"},
@@ -333,12 +350,17 @@ def vocab(area, consts):
         "opaque": {},
     }
     if area == "lib":
-        v["type_alias"]["ColorSet"] = ("tuple", (("opt", acol), ("opt", acol)))
+        if colorset:
+            v["type_alias"]["ColorSet"] = ("tuple", (("opt", acol), ("opt", acol)))
+        # the three inline constructors of roff: under the full path always, under the short name when (and only when)
+        # the file imports it (check_uses: then it is roff's)
+        inl = {"bold": "RfInBold", "italic": "RfInItalic", "roman": "RfInRoman"}
+        for n in sorted(inl):
+            if n in imported:
+                v["fns"][n] = shape(inl[n], None, [("in", BYTES)], INLINE)
+            v["fns"]["roff::" + n] = shape(inl[n], None, [("in", BYTES)], INLINE)
         v["fns"].update({
             "Roff::new": const_fn("rf_roff_new", ROFF, "Roff::new"),
-            "bold": shape("RfInBold", None, [("in", BYTES)], INLINE),
-            "italic": shape("RfInItalic", None, [("in", BYTES)], INLINE),
-            "roff::roman": shape("RfInRoman", None, [("in", BYTES)], INLINE),
             "Palette::default": const_fn("vga", PAL, "Palette::default"),
             "anstyle_lossy::xterm_to_rgb": shape("xterm_to_rgb", None, [("in", A256), ("in", PAL)], RGB, total=False),
         })
@@ -402,6 +424,39 @@ def register(generators, gm):
         if names != EFFECTS:
             raise TranslateError("effect.rs: effect constants %r, the vocabulary models %r (Generated/Style.v eff_*)" % (names, EFFECTS))
 
+    def check_uses(rel, src):
+        """the imports of the file (test modules apart), compared with USES[rel] name by name; returns the imported names"""
+        known = USES[rel]
+        try:
+            uses = all_uses(src)
+        except (UseError, LexError) as e:
+            raise TranslateError("%s: `use` items: %s" % (rel, e))
+        got = set()
+        for headers, name, path in uses:
+            if in_test_module(headers):
+                continue
+            if name == "*":
+                raise TranslateError("%s: glob import `use %s` (the vocabulary must know what every short name stands for)" % (rel, path))
+            if known.get(name) != path:
+                raise TranslateError("%s: `use %s%s`: the vocabulary reads `%s` as %s" % (
+                    rel, path, "" if path.split("::")[-1] == name else " as " + name, name, known.get(name, "nothing (it is not a name it knows)")))
+            got.add(name)
+        clash = sorted((set(known) - got) & defined_names(src))
+        if clash:
+            raise TranslateError("%s: %s is defined in the file, the vocabulary reads the name as %s" % (rel, ", ".join(clash), known[clash[0]]))
+        return got
+
+    def check_types(rel, src, allowed):
+        """`type` items (skipped by the parser, but they say what a name means): only the listed ones, text for text"""
+        try:
+            found = type_items(src)
+        except LexError as e:
+            raise TranslateError("%s: %s" % (rel, e))
+        for t in found:
+            if t not in allowed:
+                raise TranslateError("%s: `%s`: a type alias the vocabulary does not know" % (rel, t))
+        return found
+
     def gen():
         try:
             lib = gm.read(LIB)
@@ -417,17 +472,11 @@ def register(generators, gm):
             check_enum(citems, "AnsiColor", [(n, []) for n in ANSI_NAMES])
             check_enum(citems, "Color", [("Ansi", ["AnsiColor"]), ("Ansi256", ["Ansi256Color"]), ("Rgb", ["RgbColor"])])
             effect_consts()
-            # which `Color` is which: the `use` lines and the one type alias the parser skips
-            sq, lq = squash(gm.strip_comments(sst)), squash(gm.strip_comments(lib))
-            for need, where, q in (("useanstyle::{AnsiColor,ColorasAColor,Effects,Style};", SST, sq),
-                                   ("usecansi::{v3::CategorisedSlice,Color,Intensity};", SST, sq),
-                                   ("useanstyle::{Ansi256Color,AnsiColor,Color,RgbColor,Style};", LIB, lq),
-                                   ("useanstyle_lossy::palette::Palette;", LIB, lq),
-                                   ("useroff::{bold,italic,Roff};", LIB, lq),
-                                   ("usestyled_str::StyledStr;", LIB, lq),
-                                   ("typeColorSet<'a>=(&'aOption<Color>,&'aOption<Color>);", LIB, lq)):
-                if need not in q:
-                    raise TranslateError("%s: `%s` not found (the vocabulary depends on it)" % (where, need))
+            # which `Color` is which: the `use` items, name by name, and the one type alias the parser skips
+            check_uses(SST, sst)
+            lib_imported = check_uses(LIB, lib)
+            colorset = check_types(LIB, lib, [COLORSET])
+            check_types(SST, sst, [])
             shapes = {}
             out = [translate(sst, vocab("sst", {}), [
                 ("is_bold", None, "g_is_bold", {}),
@@ -454,7 +503,11 @@ def register(generators, gm):
                 out.append("(* control_requests::%s *)\nDefinition g_%s : list N := [%s].\n" % (it.name, it.name, "; ".join(str(b) for b in it.val.val)))
             if sorted(got) != ["BACKGROUND", "CREATE_COLOR", "FOREGROUND"]:
                 raise TranslateError("mod control_requests: constants %r" % got)
-            out.append(translate(lib, vocab("lib", consts), [
+            lv = vocab("lib", consts, lib_imported, bool(colorset))
+            # methods of anstyle's own colour types that lib.rs calls and the vocabulary does not name (`color.is_bright()`) are
+            # INLINED from crates/anstyle/src/color.rs (emit.py local_method: the `impl` of the receiver's type)
+            lv["inline_sources"] = [col]
+            out.append(translate(lib, lv, [
                 ("is_bright", None, "g_is_bright", {}),
                 ("has_bright_fg", None, "g_has_bright_fg", {}),
                 ("ansi_color_to_roff", None, "g_ansi_color_to_roff", {}),
